@@ -11,12 +11,23 @@
  * buffer is not significant on that rank, `ERR <code>` when the call returned an error, `OVERFLOW` when a guard
  * cell behind the buffer was written.  The buffers are filled by closed formulas of (op, rank, cell index) that
  * the Lean driver (SgVerif/C29/Driver.lean) re-implements: val().
+ *
+ * SEQUENCES.  All the cases of the file run one after the other on the same communicator, without any
+ * synchronisation in between: the file IS a sequence of calls, and every call's buffers are printed.  After the last
+ * case every rank waits (simulated sleep) until all traffic has been delivered and prints `L <rank> <n>`: n != 0 when an
+ * unmatched communication (a message nobody received, or a receive nobody fed) is still queued in one of the two
+ * mailboxes SMPI gives the rank (src/smpi/internals/smpi_actor.cpp: "SMPI-<pid>", "small-<pid>").  Collective
+ * traffic uses negative tags (COLL_TAG_*), which MPI_Iprobe(MPI_ANY_TAG) never matches (smpi_request.cpp:match_common),
+ * hence the look at the mailboxes through the public C API.  `T <rank> <0|1>` is the self-test of that probe (a message
+ * the rank sent to itself and has not received yet must be seen).
  */
 #include <mpi.h>
 #include <stdio.h>
 #include <stdlib.h>
 #include <string.h>
 #include <unistd.h>
+#include <simgrid/actor.h>
+#include <simgrid/mailbox.h>
 
 #define SENT (-7777)
 #define JUNK 424242
@@ -164,6 +175,19 @@ static MPI_Op mpi_op(int op, MPI_Op user_op)
   }
 }
 
+/* number of this rank's mailboxes (0..2) in which an unmatched communication is queued */
+static int pending_comms(void)
+{
+  char nm[64];
+  long pid = (long)sg_actor_self_get_pid();
+  int n    = 0;
+  snprintf(nm, sizeof nm, "SMPI-%ld", pid);
+  n += sg_mailbox_listen(nm) ? 1 : 0;
+  snprintf(nm, sizeof nm, "small-%ld", pid);
+  n += sg_mailbox_listen(nm) ? 1 : 0;
+  return n;
+}
+
 static int lookup(const char* s, const char* const* names)
 {
   for (int i = 0; names[i]; i++)
@@ -187,6 +211,17 @@ int main(int argc, char** argv)
   MPI_Type_create_resized(v0, 0, 4 * sizeof(int), &vec_type);
   MPI_Type_commit(&vec_type);
   MPI_Op_create(user_fn, 1, &user_op);
+
+  { /* self-test of pending_comms(): a message to myself that I have not received yet is seen (nothing is required
+     * of the state before/after: a neighbour that is already in the first collective may have sent something) */
+    int x = rank, y = -1;
+    MPI_Request sreq;
+    MPI_Isend(&x, 1, MPI_INT, rank, 7, comm, &sreq);
+    int during = pending_comms();
+    MPI_Recv(&y, 1, MPI_INT, rank, 7, comm, MPI_STATUS_IGNORE);
+    MPI_Wait(&sreq, MPI_STATUS_IGNORE);
+    printf("T %d %d\n", rank, during > 0 && y == rank);
+  }
 
   FILE* f = fopen(argv[1], "r");
   if (!f) { fprintf(stderr, "cannot open %s\n", argv[1]); MPI_Abort(comm, 3); }
@@ -218,6 +253,7 @@ int main(int argc, char** argv)
       double t1 = MPI_Wtime();
       if (rc != MPI_SUCCESS) printf("R %ld %d ERR %d\n", idx, rank, rc);
       else printf("R %ld %d %a %a\n", idx, rank, t0, t1);
+      fflush(stdout);
       continue;
     } else if (!strcmp(coll, "bcast")) {
       ritems = c;
@@ -310,10 +346,14 @@ int main(int argc, char** argv)
     if (rc != MPI_SUCCESS) printf("R %ld %d ERR %d\n", idx, rank, rc);
     else if (!sig) printf("R %ld %d -\n", idx, rank);
     else emit(&t, rb, ritems, idx, rank);
+    fflush(stdout); /* a later crash of the process must not take the lines of the completed calls with it */
     free(sb);
     free(rb);
   }
   fclose(f);
+  /* quiescence: every rank has left its last call long before anybody looks (the calls of the grid last milliseconds) */
+  sleep(1000);
+  printf("L %d %d\n", rank, pending_comms());
   fflush(stdout);
   MPI_Op_free(&user_op);
   MPI_Type_free(&vec_type);
